@@ -380,7 +380,14 @@ fn check_h1(c: &H1, x: &ExecRef, res: &Result<Vec<Ev>, HErr>, tags: &[usize]) {
         violate(x, "too-many-datasets", format!("{} data sets created with queue length {}", tags.len(), c.queue));
     }
     // C15 / C08: initialisation failures come back as Err
-    let init_fail = c.reader_init_fails || c.dataset_init_fail_at.map_or(false, |j| j <= c.queue);
+    // Whether the failing initialiser call happens at all depends on the schedule: when the reader
+    // thread has already finished (e.g. empty input), the hand-over loop stops early and fewer than
+    // queue + 1 data sets are created. The log says whether the failing call was made.
+    let ds_failed = {
+        let e = x.lock();
+        e.log.iter().any(|ev| matches!(ev, Ev::DatasetInit { ok: false, .. }))
+    };
+    let init_fail = c.reader_init_fails || ds_failed;
     match res {
         Err(e) => {
             if !init_fail {
@@ -711,7 +718,11 @@ fn check_h2(c: &H2, x: &ExecRef, res: &Result<Option<usize>, PErr>, rset_inits: 
         let e = x.lock();
         e.log.iter().any(|ev| matches!(ev, Ev::RecInitFail { .. }))
     };
-    let init_fail = c.reader_init_fails || c.rset_init_fail_at.map_or(false, |j| j <= c.queue);
+    let rset_failed = {
+        let e = x.lock();
+        e.log.iter().any(|ev| matches!(ev, Ev::DatasetInit { ok: false, .. }))
+    };
+    let init_fail = c.reader_init_fails || rset_failed;
     match res {
         Err(PErr::ReaderInit) if c.reader_init_fails => {}
         Err(PErr::RsetInit(j)) if c.rset_init_fail_at == Some(*j) => {}
